@@ -382,12 +382,12 @@ Fixpoint py_repr (v : val) : option string :=
   | VExn _ _ _ => None
   end.
 
-Definition py_str (v : val) : option string :=
+Fixpoint py_str (v : val) : option string :=
   match v with
   | VStr s => Some s
   | VPy s _ => Some s
   | VSic s => Some s
-  | VJsonify x => match x with VStr s => Some s | _ => py_repr x end
+  | VJsonify x => py_str x        (* SpecialTagDirective.__str__ = str(self.value) *)
   | VExn _ m _ => Some m
   | _ => py_repr v
   end.
